@@ -8,6 +8,7 @@ import (
 	"flag"
 	"fmt"
 	"hash/fnv"
+	mbits "math/bits"
 	"os"
 	"path/filepath"
 	"runtime/debug"
@@ -91,13 +92,39 @@ func (c *Ctx) mustGen() {
 	}
 }
 
-// Int draws an integer in [lo,hi].
+// rapid's integer and float generators are deliberately biased towards small magnitudes
+// (geometric bit length); schedulers and fault rates need uniform choices, so every draw is
+// assembled from unbiased single-bit draws (rapid.Bool), which still shrink towards zero.
+func (c *Ctx) bits(label string, k int) uint64 {
+	var v uint64
+	g := rapid.Bool()
+	for i := 0; i < k; i++ {
+		v <<= 1
+		if g.Draw(c.rt, label) {
+			v |= 1
+		}
+	}
+	return v
+}
+
+func (c *Ctx) below(label string, n uint64) uint64 {
+	if n <= 1 {
+		return 0
+	}
+	k := mbits.Len64(n - 1)
+	if k > 58 {
+		return c.bits(label, 64) % n
+	}
+	return c.bits(label, k+5) % n
+}
+
+// Int draws a uniform integer in [lo,hi].
 func (c *Ctx) Int(label string, lo, hi int) int {
 	c.mustGen()
 	if hi <= lo {
 		return lo
 	}
-	return rapid.IntRange(lo, hi).Draw(c.rt, label)
+	return lo + int(c.below(label, uint64(hi-lo)+1))
 }
 
 func (c *Ctx) Int64(label string, lo, hi int64) int64 {
@@ -105,12 +132,12 @@ func (c *Ctx) Int64(label string, lo, hi int64) int64 {
 	if hi <= lo {
 		return lo
 	}
-	return rapid.Int64Range(lo, hi).Draw(c.rt, label)
+	return lo + int64(c.below(label, uint64(hi-lo)+1))
 }
 
 func (c *Ctx) Uint64(label string) uint64 {
 	c.mustGen()
-	return rapid.Uint64().Draw(c.rt, label)
+	return c.bits(label, 64)
 }
 
 func (c *Ctx) Bool(label string) bool {
@@ -127,7 +154,7 @@ func (c *Ctx) Chance(label string, permille int) bool {
 	if permille >= 1000 {
 		return true
 	}
-	return rapid.IntRange(0, 999).Draw(c.rt, label) >= 1000-permille
+	return c.below(label, 1000) >= uint64(1000-permille)
 }
 
 // Pick draws an index in [0,n).
@@ -136,7 +163,7 @@ func (c *Ctx) Pick(label string, n int) int {
 	if n <= 1 {
 		return 0
 	}
-	return rapid.IntRange(0, n-1).Draw(c.rt, label)
+	return int(c.below(label, uint64(n)))
 }
 
 // PickW draws an index with the given non-negative weights (shrinks towards index 0).
@@ -149,7 +176,7 @@ func (c *Ctx) PickW(label string, weights []int) int {
 	if tot <= 0 {
 		return 0
 	}
-	x := rapid.IntRange(0, tot-1).Draw(c.rt, label)
+	x := int(c.below(label, uint64(tot)))
 	for i, w := range weights {
 		if x < w {
 			return i
@@ -173,6 +200,9 @@ func (c *Ctx) Knob(name string, gen func() int64) int64 {
 		return v
 	}
 	v := gen()
+	if ov, ok := knobOverride[name]; ok {
+		v = ov // debugging aid (VERIF_KNOBS=name=value,...): the generator's draw is still consumed
+	}
 	c.Trace.Knobs = append(c.Trace.Knobs, Knob{name, v})
 	return v
 }
@@ -401,6 +431,18 @@ func panicSite(stack string) string {
 	}
 	return "unknown-site"
 }
+
+var knobOverride = func() map[string]int64 {
+	m := map[string]int64{}
+	for _, kv := range strings.Split(os.Getenv("VERIF_KNOBS"), ",") {
+		if i := strings.Index(kv, "="); i > 0 {
+			if n, err := strconv.ParseInt(kv[i+1:], 10, 64); err == nil {
+				m[kv[:i]] = n
+			}
+		}
+	}
+	return m
+}()
 
 var target *Violation // violation class being minimised (first unknown one seen in this process)
 
